@@ -55,20 +55,31 @@ func selectByFile(pkgs []*packages.Package, file string) *packages.Package {
 	return nil
 }
 
+// commonPrefix returns the deepest directory containing all the given
+// (absolute, cleaned) directories. Whole path components are compared,
+// so that sibling directories sharing a name prefix (foo1, foo2)
+// yield their parent directory.
 func commonPrefix(paths []string) string {
-	index := 0
-	first := paths[0]
-	for ; index < len(first); index++ {
-		c := first[index]
-		for _, other := range paths {
-			if index >= len(other) || other[index] != c {
-				// no more prefix
-				return first[:index]
+	sep := string(filepath.Separator)
+	common := strings.Split(paths[0], sep)
+	for _, other := range paths[1:] {
+		chunks := strings.Split(other, sep)
+		if len(chunks) < len(common) {
+			common = common[:len(chunks)]
+		}
+		for i := range common {
+			if common[i] != chunks[i] {
+				common = common[:i]
+				break
 			}
 		}
 	}
 
-	return first
+	out := strings.Join(common, sep)
+	if out == "" && strings.HasPrefix(paths[0], sep) {
+		return sep // only the root directory is shared
+	}
+	return out
 }
 
 // LoadSources returns for each source file, the `*packages.Package` containing it.
